@@ -90,6 +90,11 @@ class Abstractor:
         self.ctx = fl.ctx
         self._busy: set[str] = set()
 
+    def _parent(self) -> "Abstractor":
+        from .flow import flow_of
+
+        return abstractor(flow_of(self.fl.R, self.fl.fn.parent))
+
     # ----------------------------------------------------------------- AV
     def const_value(self, e: ast.AST, _d: int = 0):
         """Numeric value of a constant expression (literals, module constants, + - * / ** unary -), else None."""
@@ -98,8 +103,17 @@ class Abstractor:
         if isinstance(e, ast.Constant) and isinstance(e.value, (int, float)) and not isinstance(e.value, bool):
             return e.value
         if isinstance(e, ast.Name):
-            if self.ctx.is_param(e.id) or e.id in self.ctx.local_defs():
+            if self.ctx.is_param(e.id):
                 return None
+            defs = self.ctx.local_defs().get(e.id)
+            if defs is not None:
+                # a local temporary holding a constant expression
+                if len(defs) == 1 and defs[0][0] == "assign":
+                    return self.const_value(defs[0][1], _d + 1)
+                return None
+            p = self.ctx.parent_ctx()
+            if p is not None and e.id in p.local_defs() and e.id not in p.fn.params:
+                return self._parent().const_value(e, _d + 1)
             r = self.fl.P.resolve_in_module(self.ctx.module, e.id)
             if isinstance(r, tuple) and r[0] == "const":
                 v = self.fl.P.fold_or_none(r[1], r[1].assigns[r[2]])
@@ -177,8 +191,10 @@ class Abstractor:
                 finally:
                     self._busy.discard(nm)
             p = self.ctx.parent_ctx()
-            if p is not None and (nm in p.fn.params or nm in p.local_defs()):
-                # closure variable: same name in the enclosing function
+            if p is not None and nm in p.local_defs() and nm not in p.fn.params:
+                # closure variable defined by the enclosing function: its provenance there
+                return self._parent().av(e, _d + 1)
+            if p is not None and nm in p.fn.params:
                 return AV(frozenset({nm}), frozenset())
             d = nm
             # module-level constant / global
@@ -368,6 +384,10 @@ class Abstractor:
                     walk(st.body, conj(cond, self.literals(st.test, True)))
                     if st.orelse:
                         walk(st.orelse, conj(cond, self.literals(st.test, False)))
+                    elif st.body and isinstance(st.body[-1], (ast.Return, ast.Continue, ast.Break)):
+                        # `if X: return` -- the rest of the block runs under not X (a guard that raises is a
+                        # rejection of its own and is not repeated, negated, in the later ones)
+                        cond = conj(cond, self.literals(st.test, False))
                 elif isinstance(st, (ast.For, ast.While, ast.AsyncFor)):
                     walk(st.body, cond)
                     walk(st.orelse, cond)
